@@ -90,10 +90,8 @@ Definition corr_gen (g : gen) : verdict :=
   vjoin (check_that (list_eqb (fun a b => (fst a =? fst b) && (snd a =? snd b)) mo io) (VMismatch 1))
         (check_that
            (list_eqb Z.eqb
-              (map (fun e => let '(_, clk, _) := e in Z.of_nat (length clk)) tr)
-              ((fix pos (rem : Z) (l : list (Z * Z * Z)) : list Z :=
-                  match l with [] => [] | (_, _, c) :: r => rem :: pos (rem - c) r end)
-                 (Z.of_nat (length (g_clock g))) (g_obs g)))
+              (map (fun e => let '(st, clk, _) := e in next_k clk st) tr)
+              (map (fun e => let '(_, _, c) := e in c) (g_obs g)))
            (VMismatch 2)).
 
 (* ---- the property on the implementation's outputs (independent reference) ---- *)
